@@ -90,7 +90,7 @@ Ltac pre :=
 
 Ltac fin :=
   updt; pre; simpl in *; sat;
-  try solve [ eauto 6 | lia | congruence | exfalso; eauto 6 | constructor
+  try solve [ eauto 4 | lia | congruence | exfalso; eauto 4 | constructor
             | match goal with H : _ |- _ => solve [exfalso; eapply H; eauto] end ].
 
 Ltac fin2 :=
